@@ -38,3 +38,7 @@ def run(ctx) -> None:
     compile_sequence_equals_fresh(ctx, "C05.G9.numbering-independent-of-earlier-rules",
                                   [("B after A", [a, b]), ("A after B", [b, a]), ("C after A and B", [a, b, c]),
                                    ("B twice", [b, b]), ("A after C", [c, a])])
+    # Z: end to end on stream templates (back-references matched on tokens): later occurrences equal the bound text
+    from ..models import make_interp as _mk
+    from ..streamshapes import end_to_end
+    end_to_end(ctx, _mk(ctx.p), "C05", "C05.Z.found-where-the-property-says", "C05.Z.not-found-elsewhere")
